@@ -276,7 +276,7 @@ theorem keys_of_absv (db : DB) : Keys db.index = (absv db).map (·.1) := by
 theorem sync_logWritten (db : DB) (inv : DiskInv db) (hp : db.pending.isEmpty = false)
     (hsmall : (checkDat db).lastPos +
       (syncPlan db.dataSeq db.index db.pending (checkDat db).lastPos).2.2.length < 2^32) :
-    ∃ L, sync db = (if L.extra > L.opts.forcedPerc * L.need / 100 then defrag L else L) ∧
+    ∃ L, sync db = (if L.extra > mul64 L.opts.forcedPerc L.need / 100 then defrag L else L) ∧
       DiskInv L ∧ absv L = absv db ∧ L.pending = [] ∧ L.opts = db.opts ∧
       (∃ es, L.effs = db.effs ++ es ∧ es.map (·.2) = syncEffs db) ∧ L.index = 
         (syncPlan db.dataSeq db.index db.pending (checkDat db).lastPos).1 ∧
